@@ -95,4 +95,46 @@ theorem cstr_terminated_le (s r : List Byte) : (cstr (s ++ 0 :: r)).length ≤ s
     · simp only [List.length_cons]; omega
     · simp
 
+/-! the slot search since the repair -/
+
+theorem firstFree_le (l : List Slot) : firstFree l ≤ l.length := by
+  induction l with
+  | nil => simp [firstFree]
+  | cons s t ih => simp only [firstFree]; split <;> simp <;> omega
+
+theorem markBefore_length (ty : Int) (k : Nat) (l : List Slot) : (markBefore ty k l).length = l.length := by
+  induction l generalizing k with
+  | nil => cases k <;> simp [markBefore]
+  | cons s t ih => cases k <;> simp [markBefore, ih]
+
+theorem markBefore_live_mem (ty : Int) (k : Nat) (l : List Slot) (s : Slot) (h : s ∈ markBefore ty k l) (hp : s.type > 0) : s ∈ l := by
+  induction l generalizing k with
+  | nil => cases k <;> simp [markBefore] at h
+  | cons a t ih =>
+    cases k with
+    | zero => simpa [markBefore] using h
+    | succ k =>
+      simp only [markBefore] at h
+      rcases List.mem_cons.mp h with h | h
+      · split at h
+        · subst h; simp at hp
+        · subst h; simp
+      · exact List.mem_cons_of_mem _ (ih k h)
+
+/-- lookups of another (real) type do not see the marks -/
+theorem markBefore_find_other (ty ty' : Int) (k : Nat) (l : List Slot) (hne : ty' ≠ ty) (hm : ty' ≠ -1) :
+    (markBefore ty k l).find? (fun s => decide (s.type = ty')) = l.find? (fun s => decide (s.type = ty')) := by
+  induction l generalizing k with
+  | nil => cases k <;> simp [markBefore]
+  | cons a t ih =>
+    cases k with
+    | zero => simp [markBefore]
+    | succ k =>
+      simp only [markBefore]
+      by_cases ha : a.type = ty
+      · have h1 : ¬ a.type = ty' := by rw [ha]; exact fun h => hne h.symm
+        have h2 : ¬ ty = ty' := fun h => hne h.symm
+        simp [ha, List.find?_cons, h2, ih, Ne.symm hm]
+      · simp [ha, List.find?_cons, ih]
+
 end Sf.Meta
